@@ -9,7 +9,7 @@ have the same law on the source variables as the abstract program at every itera
 spec/LoopTrace.tla) and (b) Polar's closed forms must equal the abstract program's moments (clause mom) --
 hence all spellings agree with each other and with the intended meaning.
 Rejection part: texts outside the grammar by construction, and choices whose constant probabilities are
-negative or sum to more than 1 (for which spec/LoopDist's Mass = 1 /\ weights > 0 cannot hold), must end in an
+negative or sum to more than 1 (for which Mass = 1 and positive weights of spec/LoopDist cannot hold), must end in an
 error, never in a result."""
 import random
 
@@ -117,6 +117,10 @@ def main(tier, seed):
         r2 = random.Random(s + 1)
         base.append((s, g, T, params, gen.choose_points(params, r2, k=1), gen.default_goals(T, r2, 2, 4)))
     items = []
+    for ft in C.fixed_templates():
+        for kind in ["plain", "noisy", "temporaries", "parens", "decimal"]:
+            text = gen.render_variant(ft["T"], kind, random.Random(7), None)
+            items.append(dict(ft, id=f"{ft['id']}-{kind}", text=text, origin=ft["origin"] + f" spelling={kind}"))
     for s, g, T, params, points, goals in base:
         kinds = gen.VARIANT_KINDS
         for kind in kinds:
